@@ -1,6 +1,7 @@
 CONSTANTS
   MaxCalls = 6
   HeomResets = TRUE
+  RestoreOnError = TRUE
   NefRecomputes = TRUE
   NrefPersists = TRUE
 SPECIFICATION Spec
